@@ -122,18 +122,18 @@ impl Scaled {
     }
 
     /// TeX.2021.105
-    pub fn nx_plus_y(self, mut n: i32, y: Scaled) -> Result<Scaled, OverflowError> {
-        let max_answer = Scaled::MAX_DIMEN;
+    pub fn nx_plus_y(self, n: i32, y: Scaled) -> Result<Scaled, OverflowError> {
         if n == 0 {
             return Ok(y);
         }
-        let mut x = self;
-        if n < 0 {
-            n = -n;
-            x = -x;
-        }
-        if x <= (max_answer - y) / n && -x <= (max_answer + y) / n {
-            Ok(x * n + y)
+        // Knuth tests for overflow with divisions so that 32-bit integers never overflow. With
+        // 64-bit integers the answer can be calculated directly; this is the same test, and it is
+        // also defined for n = i32::MIN and for scaled numbers outside of the dimension range,
+        // which cannot be negated.
+        let max_answer = Scaled::MAX_DIMEN.0 as i64;
+        let answer = (self.0 as i64) * (n as i64) + (y.0 as i64);
+        if (-max_answer..=max_answer).contains(&answer) {
+            Ok(Scaled(answer as i32))
         } else {
             Err(OverflowError {})
         }
